@@ -164,8 +164,9 @@ class ExplorerScriptMacro:
         for pos_mark in self.source_map.get_position_marks__direct():
             smb.add_macro_position_mark(self.included__relative_path, self.name, pos_mark)
         # Also add the sub-macro position marks to the map
-        for m in self.source_map.get_position_marks__macros():
-            smb.add_macro_position_mark(*m)
+        for m_file, m_name, m_mark in self.source_map.get_position_marks__macros():
+            # If the file path was None in that entry, then it's OUR file (as for the opcode entries).
+            smb.add_macro_position_mark(m_file if m_file is not None else self.included__relative_path, m_name, m_mark)
 
         out_ops.append(end_label)
 
